@@ -78,11 +78,11 @@ def _outcome(fn):
     try:
         return ("ok", compare.canon(fn()))
     except NotImplementedError as e:
-        return ("refused", "NotImplementedError", str(e)[:120])
+        return ("refused", "NotImplementedError", compare.msg(e, 120))
     except BaseException as e:  # noqa: BLE001
         if isinstance(e, (KeyboardInterrupt, SystemExit, executor.ProtocolError)):
             raise
-        return ("raise", type(e).__name__, str(e)[:160])
+        return ("raise", type(e).__name__, compare.msg(e, 160))
 
 
 def _execute(ds, lay, st, op, sort, ctx):
